@@ -216,7 +216,7 @@ m = {
     }],
     'checks': checks,
     'not_applicable': na,
-    'notes': 'see DESIGN.md; known findings and fixes in known_findings.json',
+    'notes': 'see DESIGN.md (as built: sections AB.1-AB.11); known findings and fixes in known_findings.json; seeded property-breaking changes (177, nine rounds) with their evaluation under seeded/<id>/; two translators regenerate Lean tables from /repo on every run (harness/translate_ops.py, harness/translate_kernels.py); every other model definition is hand-written and tied to /repo by the correspondence run of each check',
 }
 json.dump(m, open(os.path.join(VERIF, 'MANIFEST.json'), 'w'), indent=1)
 print("checks:", len(checks), "not_applicable:", len(na))
